@@ -12,7 +12,7 @@ pub const C06_ELEMS: [&str; 6] = ["P8", "T24", "Z", "B1", "L200", "B3"];
 
 pub fn run(c: &mut Ctx) {
     c.run_scenarios(|c, idx, rng| {
-        let e = C06_ELEMS[(idx % C06_ELEMS.len() as u64) as usize];
+        let e = C06_ELEMS[(crate::util::mix(idx) % C06_ELEMS.len() as u64) as usize];
         for_elem!(e, scenario(c, idx, rng));
     });
 }
